@@ -7,41 +7,63 @@ CONSTANTS MaxLen,     \* operations per history
           MaxObj,     \* notification objects per history
           Emit,       \* print finished histories as JSON (simulation)
           Background, \* the cleaner also runs between the operations (exhaustive check of the laws)
-          WithInsert  \* histories contain database inserts
+          WithInsert, \* histories contain database inserts
+          GenIDs,     \* EventIDs used (a subset of IDs keeps the exhaustive check small)
+          GenKinds    \* helper functions used
 
 VARIABLES s, hist, done
 vars == <<s, hist, done>>
 
-Op(name, k, id, sel, exp, flag, ks) == [op |-> name, k |-> k, id |-> id, sel |-> sel, exp |-> exp, flag |-> flag, ks |-> ks]
+Op(name, k, id, sel, exp, flag, ks) == [op |-> name, k |-> k, id |-> id, sel |-> sel, exp |-> exp, flag |-> flag, ks |-> ks, n |-> 2]
 SetToSeq(S) == LET RECURSIVE f(_) f(T) == IF T = {} THEN <<>> ELSE LET e == CHOOSE e \in T : \A y \in T : e <= y IN <<e>> \o f(T \ {e}) IN f(S)
 
 Objs == 1..Len(s.objs)
-Family == {"create", "app", "chan", "ui", "tick"} \cup (IF WithInsert THEN {"insert"} ELSE {})
+Family == {"create", "helper", "app", "chan", "ui", "tick"} \cup (IF WithInsert THEN {"insert"} ELSE {})
 Raw(f) ==
-  CASE f = "create" -> {Op("notify", 0, i, "", e, TRUE, <<>>) : i \in IDs, e \in {"never", "future", "past"}}
-                       \cup {Op("notify", 0, i, "", "never", FALSE, <<>>) : i \in IDs}
+  CASE f = "create" -> {Op("notify", 0, i, "", e, TRUE, <<>>) : i \in GenIDs, e \in {"never", "future", "past"}}
+                       \cup {Op("notify", 0, i, "", "never", FALSE, <<>>) : i \in GenIDs}
+    [] f = "helper" -> {[Op("notify", 0, i, h, "never", TRUE, <<>>) EXCEPT !.n = c] :
+                                 i \in GenIDs, h \in GenKinds, c \in {0, 2}}
     [] f = "app" -> {Op("save", k, "", "", "", FALSE, <<>>) : k \in Objs}
                     \cup {Op("saveexp", k, "", "", e, FALSE, <<>>) : k \in Objs, e \in {"never", "future"}}
                     \cup {Op("update", k, "", "", e, b, <<>>) : k \in Objs, e \in {"never", "future"}, b \in BOOLEAN}
                     \cup {Op("setfn", k, "", "", "", FALSE, <<>>) : k \in Objs}
                     \cup {Op("delete", k, "", "", "", FALSE, <<>>) : k \in Objs}
-                    \cup {Op("deleteid", 0, i, "", "", FALSE, <<>>) : i \in IDs}
+                    \cup {Op("deleteid", 0, i, "", "", FALSE, <<>>) : i \in GenIDs}
+                    \cup {Op("cfgsys", 0, "", "", "", b, <<>>) : b \in BOOLEAN}
     [] f = "chan" -> {Op("listen", k, "", "", "", FALSE, <<>>) : k \in {j \in Objs : Len(s.objs[j].rl) < 2}}
                      \cup {Op("waitexp", k, "", "", "", FALSE, <<>>) : k \in {j \in Objs : Len(s.objs[j].el) < 2}}
-    [] f = "ui" -> {Op("dbput", 0, i, x, "", b, <<>>) : i \in IDs, x \in Sels \cup {""}, b \in BOOLEAN}
-                   \cup {Op("dbput", 0, i, x, "", FALSE, <<>>) : i \in IDs, x \in Sels}    \* (selections twice as likely)
-                   \cup {Op("dbdelete", 0, i, "", "", FALSE, <<>>) : i \in IDs}
-    [] f = "tick" -> {Op("tick", 0, "", "", "", FALSE, SetToSeq(K)) : K \in SUBSET {k \in Objs : Live(s, k) /\ s.objs[k].exp = "future"}}
-    [] f = "insert" -> {Op("dbinsert", 0, i, x, "", FALSE, <<>>) : i \in IDs, x \in Sels}
+    [] f = "ui" -> {Op("dbput", 0, i, x, "", b, <<>>) : i \in GenIDs, x \in Sels \cup {""}, b \in BOOLEAN}
+                   \cup {Op("dbput", 0, i, x, "", FALSE, <<>>) : i \in GenIDs, x \in Sels}    \* (selections twice as likely)
+                   \cup {Op("dbdelete", 0, i, "", "", FALSE, <<>>) : i \in GenIDs}
+                   \cup {Op("dbputrace", 0, i, "", "", FALSE, <<>>) : i \in GenIDs}
+                   \cup {Op("dbputbad", 0, i, "", "", b, <<>>) : i \in GenIDs, b \in BOOLEAN}
+    [] f = "tick" -> {Op("tick", 0, "", "", "", FALSE, SetToSeq(K)) :
+                        K \in {J \in SUBSET {k \in Objs : Live(s, k) /\ s.objs[k].exp = "future"} : J # {} \/ Cleanable(s) # {}}}
+    [] f = "insert" -> {Op("dbinsert", 0, i, x, "", FALSE, <<>>) : i \in GenIDs, x \in Sels}
 Creates(o) == o.op = "notify" \/ (o.op = "dbput" /\ ~Visible(s, o.id))
 Cand(f) == {o \in Raw(f) : Legal(s, o) /\ (Creates(o) => Len(s.objs) < MaxObj)}
 
 Init == s = InitState /\ hist = <<>> /\ done = FALSE
 
 Pick(S) == IF Emit THEN (IF S = {} THEN {} ELSE {RandomElement(S)}) ELSE S
+\* Where the model leaves the outcome open, generated histories continue along the outcome the implementation is
+\* known to take (the UI may create and delete, a put that changes nothing succeeds, Update is throttled, deleting a
+\* replaced handle frees the EventID), so that the object numbers of a script fit what the driver will see.
+\* This is a bias of the generator only: the trace specification accepts every outcome of Step.
+Usual(o, x) ==
+  CASE o.op = "dbput" -> x.ret = (IF Visible(s, o.id) /\ s.objs[s.store[o.id]].st = "executed" THEN "err" ELSE "ok")
+    [] o.op = "dbdelete" -> x.ret = (IF Visible(s, o.id) THEN "ok" ELSE "err")
+    [] o.op = "dbinsert" -> x.ret = (IF Visible(s, o.id) THEN "ok" ELSE "err") /\ (Visible(s, o.id) => x.s.objs[s.store[o.id]].sel = o.sel)
+    [] o.op = "update" -> (~o.flag => x.s = s)
+    [] o.op = "delete" -> x.s.store[s.objs[o.k].id] = 0
+    [] o.op = "dbputrace" -> x.ret = "ok"
+    [] OTHER -> TRUE
+Outcomes(o) == LET all == FullStep(s, o, Background) IN
+               IF Emit /\ {x \in all : Usual(o, x)} # {} THEN {x \in all : Usual(o, x)} ELSE all
 
 DoOp == /\ Len(hist) < MaxLen
-        /\ \E f \in Pick({g \in Family : Cand(g) # {}}) : \E o \in Pick(Cand(f)) : \E x \in FullStep(s, o, Background) :
+        /\ \E f \in Pick({g \in Family : Cand(g) # {}}) : \E o \in Pick(Cand(f)) : \E x \in Outcomes(o) :
               /\ s' = x.s
               /\ hist' = Append(hist, [op |-> o])
         /\ UNCHANGED done
